@@ -86,9 +86,9 @@ fn step_mul_f() { let x = any_num(); let y = any_num();
     match ok(eval(Node::Multiply(leaf(&x), leaf(&y)))) { Some(r) => assert!(has_value(&r, val(&x) * val(&y)), "IEEE operation on the operands' values"), None => assert!(false, "never Err") } }
 
 // ---- division ----------------------------------------------------------------------------------------------
-// @obligation owners=C09,C15 fn=eval_number::ast::eval/Divide(Integer,Integer)
+// @obligation owners=C09,C15 fn=eval_number::ast::eval/Divide(Integer,Integer) bounded="operands in -128..=127 (two symbolic 64-bit dividers do not finish in 25 minutes; corner operands: step_div_corners)"
 #[kani::proof]
-fn step_div_ii() { let a: i64 = kani::any(); let b: i64 = kani::any();
+fn step_div_ii() { let sa: i8 = kani::any(); let sb: i8 = kani::any(); let a = sa as i64; let b = sb as i64;
     let exact = a.checked_rem(b) == Some(0);      // b != 0, not MIN / -1, and b divides a
     match ok(eval(Node::Divide(int(a), int(b)))) { Some(r) => {
         if exact { assert!(matches!(r, Number::Integer(q) if q.checked_mul(b) == Some(a)), "exact division stays Integer: q * b == a") }
@@ -106,9 +106,9 @@ fn step_div_total() { let x = any_num(); let y = any_num();
     assert!(ok(eval(Node::Divide(leaf(&x), leaf(&y)))).is_some(), "never Err, never a panic"); }
 
 // ---- remainder -----------------------------------------------------------------------------------------------
-// @obligation owners=C09,C15,C01 fn=eval_number::ast::eval/Modulo(Integer,Integer)
+// @obligation owners=C09,C15,C01 fn=eval_number::ast::eval/Modulo(Integer,Integer) bounded="operands in -128..=127 (corner operands: step_div_mod_corners)"
 #[kani::proof]
-fn step_mod_ii() { let a: i64 = kani::any(); let b: i64 = kani::any();
+fn step_mod_ii() { let sa: i8 = kani::any(); let sb: i8 = kani::any(); let a = sa as i64; let b = sb as i64;
     match ok(eval(Node::Modulo(int(a), int(b)))) { Some(r) => {
         if b == 0 { assert!(matches!(r, Number::Float(f) if f.is_nan()), "by zero: the Float of the operands' doubles (NaN)") }
         else { assert!(matches!(r, Number::Integer(m) if (m == 0 || (m < 0) == (a < 0)) && m.unsigned_abs() < b.unsigned_abs() && a.wrapping_sub(m).wrapping_rem(b) == 0),
@@ -118,6 +118,19 @@ fn step_mod_ii() { let a: i64 = kani::any(); let b: i64 = kani::any();
 #[kani::proof]
 fn step_mod_total() { let x = any_num(); let y = any_num();
     assert!(ok(eval(Node::Modulo(leaf(&x), leaf(&y)))).is_some(), "never Err, never a panic"); }
+
+// @obligation owners=C09,C01 fn=eval_number::ast::eval/Divide+Modulo(Integer,Integer) bounded="the 16 corner operand pairs from {MIN, -1, 0, MAX}^2 (concrete)"
+#[kani::proof]
+fn step_div_mod_corners() {
+    let c = [i64::MIN, -1, 0, i64::MAX];
+    let mut i = 0; while i < 4 { let mut j = 0; while j < 4 { let (a, b) = (c[i], c[j]);
+        let q = ok(eval(Node::Divide(int(a), int(b)))); let m = ok(eval(Node::Modulo(int(a), int(b))));
+        assert!(q.is_some() && m.is_some(), "never Err");
+        if b == 0 { assert!(matches!(q, Some(Number::Float(_))) && matches!(m, Some(Number::Float(f)) if f.is_nan())) }
+        else if a == i64::MIN && b == -1 { assert!(matches!(q, Some(Number::Float(f)) if f == 9223372036854775808.0) && matches!(m, Some(Number::Integer(0)))) }
+        else { assert!(matches!(m, Some(Number::Integer(v)) if v == a % b));
+               if a % b == 0 { assert!(matches!(q, Some(Number::Integer(v)) if v == a / b)) } else { assert!(matches!(q, Some(Number::Float(_)))) } }
+        j += 1; } i += 1; } }
 
 // ---- unary minus, abs, sgn ----------------------------------------------------------------------------------------
 // @obligation owners=C09,C15 fn=eval_number::ast::eval/Negative
@@ -173,12 +186,21 @@ fn step_truncate() { let x = any_num();
     }, None => assert!(false, "never Err") } }
 
 // ---- power -------------------------------------------------------------------------------------------------------
-// @obligation owners=C09,C10,C13 fn=eval_number::ast::eval/Pow(Float,_)
+// @obligation owners=C09,C10,C13 fn=eval_number::ast::eval/Pow(Float,Float)
 #[kani::proof]
 #[kani::stub(f64::powf, s_powf)]
-fn step_pow_f() { let x = any_num(); let y = any_num();
-    kani::assume(matches!(x, Number::Float(_)) || matches!(y, Number::Float(_)));
-    match ok(eval(Node::Pow(leaf(&x), leaf(&y)))) { Some(r) => assert!(once2(20, val(&x), val(&y)) && is_from(&r, res()), "powf(base, exponent) on the operands' values"), None => assert!(false, "never Err") } }
+fn step_pow_ff() { let x: f64 = kani::any(); let y: f64 = kani::any();
+    match ok(eval(Node::Pow(flt(x), flt(y)))) { Some(r) => assert!(once2(20, x, y) && is_from(&r, res()), "powf(base, exponent) on the operands' values"), None => assert!(false, "never Err") } }
+// @obligation owners=C09,C10 fn=eval_number::ast::eval/Pow(Float,Integer)
+#[kani::proof]
+#[kani::stub(f64::powf, s_powf)]
+fn step_pow_fi() { let x: f64 = kani::any(); let y: i64 = kani::any();
+    match ok(eval(Node::Pow(flt(x), int(y)))) { Some(r) => assert!(once2(20, x, y as f64) && is_from(&r, res()), "powf(base, exponent) on the operands' values"), None => assert!(false, "never Err") } }
+// @obligation owners=C09,C10 fn=eval_number::ast::eval/Pow(Integer,Float)
+#[kani::proof]
+#[kani::stub(f64::powf, s_powf)]
+fn step_pow_if() { let x: i64 = kani::any(); let y: f64 = kani::any();
+    match ok(eval(Node::Pow(int(x), flt(y)))) { Some(r) => assert!(once2(20, x as f64, y) && is_from(&r, res()), "powf(base, exponent) on the operands' values"), None => assert!(false, "never Err") } }
 // NOTE: the value of Integer ^ Integer is NOT an obligation here: Kani 0.68's model of this arm disagrees with native
 // execution (even the concrete Pow(Integer(3), Integer(2)) "may return a Float" for CBMC while the native run of the
 // same harness returns Integer(9)); the counterexample does not replay, so the obligation is reported as open.
